@@ -1,12 +1,14 @@
+# the temporary name carries the shell's pid: two builds started at the same moment (a check's ensure_shim() and a manual make) must not
+# write into one file - a half-written vshim.so makes ld.so skip the preload silently and every program then runs WITHOUT the interposer
 # setup: builds only what does not depend on /repo (the checks rebuild the rest from the working tree)
 CC=cc
 all: shim/vshim.so shim/standin
 
 shim/vshim.so: shim/vshim.c
-	$(CC) -O1 -g -shared -fPIC -o $@.tmp shim/vshim.c -ldl && mv -f $@.tmp $@
+	t=$@.tmp.$$$$; $(CC) -O1 -g -shared -fPIC -o $$t shim/vshim.c -ldl && mv -f $$t $@
 
 shim/standin: shim/standin.c
-	$(CC) -O1 -g -o $@.tmp shim/standin.c && mv -f $@.tmp $@
+	t=$@.tmp.$$$$; $(CC) -O1 -g -o $$t shim/standin.c && mv -f $$t $@
 
 clean:
 	rm -f shim/vshim.so shim/standin shim/*.o
